@@ -275,6 +275,39 @@ func (w *Wire) Cut(i, from, to int) bool {
 	return true
 }
 
+// CutAlters reports whether removing bytes [from, to) of frame i changes what the reader sees within the
+// span of that frame (the bytes that slide in come from the rest of the frame and the head of the next
+// one).  A cut next to the end of a frame leaves the span unchanged with probability 2^-8 per remaining
+// byte: such a cut does not tamper with this frame but with the next one.
+func (w *Wire) CutAlters(i, from, to int) bool {
+	w.mu.Lock()
+	defer w.mu.Unlock()
+	if i < 0 || i >= len(w.frames) || from < 0 || to > len(w.frames[i]) || from >= to {
+		return false
+	}
+	f := w.frames[i]
+	var next []byte
+	if i+1 < len(w.frames) {
+		next = w.frames[i+1]
+	}
+	d := to - from
+	for j := from; j < len(f); j++ {
+		var b byte
+		switch k := j + d; {
+		case k < len(f):
+			b = f[k]
+		case k-len(f) < len(next):
+			b = next[k-len(f)]
+		default:
+			return true // the stream ends inside the span
+		}
+		if b != f[j] {
+			return true
+		}
+	}
+	return false
+}
+
 // CutEOF keeps the first `keep` bytes of frame i, discards everything behind and ends the stream.
 func (w *Wire) CutEOF(i, keep int) bool {
 	w.mu.Lock()
